@@ -13,8 +13,6 @@ PROPS["C01"] = {
                   "literal_bodies": "'//[' + every body of length <= 6 (quick) / <= 8 (thorough) over {1 f 0 : . ] g}"},
     "quick": {"cases": 60000},
     "thorough": {"cases": 1500000, "ceiling_s": 3000},
-    "fuzz_bins": ["build/bin/fz_c01"],
-    "fuzz_seconds": 300,
     "rule": ("texts from G_noise (40% grammar-built URI references, 35% of those with 1-3 edits or a suspicious bracketed literal, "
              "15% token soup, 10% random code points; wide runs add out-of-range code points) plus the exhaustive enumerations; "
              "every text goes through all six parse entry forms for wchar_t and, when representable, char. "
@@ -319,3 +317,10 @@ PROPS["C20"] = {
              "writable-segment checksum and once under TSan. Non-trivial = >= 2 threads and >= 2 ops on shared operands; distinct by workload"),
     "assumptions": ["threads only write to their own outputs (the statement's precondition)"],
 }
+
+# libFuzzer campaigns (thorough tier only): same decoders and oracles inside the target
+for _pid, _secs, _len in (("C01", 240, 400), ("C04", 180, 400), ("C06", 180, 512), ("C07", 240, 1024), ("C08", 180, 512), ("C10", 180, 512), ("C16", 180, 600), ("C17", 180, 1024)):
+    PROPS[_pid]["fuzz_bins"] = ["build/bin/fz_" + _pid.lower()]
+    PROPS[_pid]["fuzz_seconds"] = _secs
+    PROPS[_pid]["fuzz_max_len"] = _len
+    PROPS[_pid]["technique"] += "; thorough tier adds a coverage-guided libFuzzer campaign over the same decoder and oracle"
